@@ -21,3 +21,5 @@ mod h_extdef;
 mod h_vxlib;
 #[cfg(kani)]
 mod h_io;
+#[cfg(kani)]
+mod h_setters;
